@@ -82,9 +82,24 @@ def _data_tensor(family, shape, rank, seed=0):
         return np.where(m > 0, x, 0.0)
     if family == "small-norm":  # Frobenius norm well below 1 (un-normalised vs relative error confusions)
         return V.generic(shape, seed + 19) * 0.05
+    if family.startswith("parafac2-model"):
+        I, J, K = shape
+        return parafac2_model_tensor(I, J, K, max(rank, 1), seed + int(family.split(":")[1]) if ":" in family else seed)
     if family == "all-negative":
         return -V.generic(shape, seed + 17, signed=False)
     raise ValueError(family)
+
+
+def parafac2_model_tensor(I, J, K, R, off=0, noise=0.05):
+    """Noisy PARAFAC2 data (I slices of J x K) whose true A factor has entries of both signs (deterministic tables)."""
+    A = V.generic((I, R), off + 41)          # signed
+    B = V.generic((R, R), off + 42) + np.eye(R)
+    C = V.generic((K, R), off + 43, signed=False)
+    out = []
+    for i in range(I):
+        P, _ = np.linalg.qr(V.generic((J, R), off + 50 + i))
+        out.append(P @ (B * A[i]) @ C.T + noise * V.generic((J, K), off + 70 + i))
+    return np.stack(out)
 
 
 def mask_tensor(shape, seed=0):
@@ -167,10 +182,18 @@ def run(algo, X, rank, cfg, n_iter_max, tol=None):
         tr = getattr(D, algo)(X, rank, n_iter_max=n_iter_max, tol=t, random_state=rs, callback=cb, **cfg)
         return Result("tr", tr, [e for e, _ in seen], tr_dense(list(tr)), {"callback_iterates": seen})
     if algo == "randomised_parafac":
-        t = TINY if tol is None else tol
-        cp, errs = D.randomised_parafac(X, rank, n_iter_max=n_iter_max, tol=t, random_state=rs, return_errors=True,
-                                        max_stagnation=cfg.pop("max_stagnation", 0), **cfg)
-        return Result("cp", cp, _errs(errs), cp_dense(cp[0], cp[1]))
+        use_cb = cfg.pop("with_callback", False)
+        t = (0 if use_cb else TINY) if tol is None else tol
+        seen = []
+
+        def cb(cp, err=None):
+            if err is not None:  # (the initial call passes the decomposition only)
+                seen.append((float(np.real(err)), None if cp[0] is None else np.array(cp[0], copy=True), [np.array(f, copy=True) for f in cp[1]]))
+
+        out = D.randomised_parafac(X, rank, n_iter_max=n_iter_max, tol=t, random_state=rs, return_errors=not use_cb,
+                                   max_stagnation=cfg.pop("max_stagnation", 0), callback=cb if use_cb else None, **cfg)
+        cp, errs = out if not use_cb else (out, [e for e, _, _ in seen])
+        return Result("cp", cp, _errs(errs), cp_dense(cp[0], cp[1]), {"callback_iterates": seen})
     if algo == "cmtf":
         from tensorly.decomposition._cmtf_als import coupled_matrix_tensor_3d_factorization as cmtf
 
